@@ -49,6 +49,9 @@ func (e *etcdProxy) EtcdProxyEnabled() bool {
 	return true
 }
 
+// watchCreateTimeout bounds the wait for the leader's confirmation of a forwarded watch
+const watchCreateTimeout = 5 * time.Second
+
 // defaultCallOption is a copy of etcd client default call option
 var defaultCallOption = []grpc.CallOption{
 	grpc.FailFast(false),
@@ -241,31 +244,52 @@ func (e *etcdProxy) Ready() error {
 
 func (e *etcdProxy) Watch(ctx context.Context, key string, revision uint64) (<-chan []*mvccpb.Event, error) {
 	e.lock.RLock()
-	defer e.lock.RUnlock()
-
 	err := e.Ready()
+	closed := e.closed
+	// the code below outlives the read lock: it must not read e.client, which the leader-check
+	// loop replaces (and sets to nil) under the write lock
+	client := e.client
+	e.lock.RUnlock()
 	if err != nil {
 		return nil, err
 	}
 
+	// the caller answers `Created` to its client as soon as this function returns: by then the LEADER
+	// must have subscribed the watch (it answers Created only after subscribing), otherwise a write
+	// acknowledged after the client saw Created is never delivered to a watch from "now"
+	// (clientv3's Watch returns once the server has answered Created, or when its context ends)
+	wctx, cancel := context.WithCancel(ctx)
+	created := make(chan struct{})
+	go func() {
+		timer := time.NewTimer(watchCreateTimeout)
+		defer timer.Stop()
+		select {
+		case <-created:
+		case <-closed:
+			cancel()
+		case <-timer.C:
+			cancel()
+		}
+	}()
+	inputCh := client.Watch(wctx, key, clientv3.WithRev(int64(revision)), clientv3.WithPrefix())
+	close(created)
+	if wctx.Err() != nil {
+		cancel()
+		return nil, status.Errorf(codes.Unavailable, "leader did not confirm the forwarded watch: %v", wctx.Err())
+	}
+
 	outputCh := make(chan []*mvccpb.Event, 100)
-	closed := e.closed
-	// the goroutine below outlives the read lock: it must not read e.client, which the leader-check
-	// loop replaces (and sets to nil) under the write lock
-	client := e.client
 	go func() {
 		defer util.Recover()
 		defer close(outputCh)
-		ctx, cancel := context.WithCancel(ctx)
 		defer cancel()
 		klog.InfoS("etcd proxy start watching")
-		inputCh := client.Watch(ctx, key, clientv3.WithRev(int64(revision)), clientv3.WithPrefix())
 		for {
 			select {
 			case <-closed:
 				klog.InfoS("leader change")
 				return
-			case <-ctx.Done():
+			case <-wctx.Done():
 				klog.InfoS("etcd proxy watch ctx done")
 				return
 			case wresp, ok := <-inputCh:
